@@ -1,9 +1,10 @@
 From Coq Require Import Extraction ExtrOcamlBasic NArith ZArith List.
-From Storage Require Import Base.Bytes Store.Model Store.SystemMixed Store.SystemRestore Store.Paging Store.XOps Store.Lookups.
+From Storage Require Import Base.Bytes Store.Model Store.SystemMixed Store.SystemRestore Store.Paging Store.XOps Store.Lookups Store.PagingCursor.
 Extraction Language OCaml.
 Definition force_types : nat * N * Z := (O, 0%N, 0%Z).
 Extraction "storex_model.ml" force_types st_empty run_tx find_store root_of is_child children_of query_ids valid_ids find_ids
   get_field loadable present isSystemF run_mtx hist_step
   ids_of sorting_scan unsorted_scan cursor_scan
   run_xtx
-  lk_find_by_id lk_load_by_id lk_load_entity lk_is_entity_present lk_bucket lk_valid_id lk_queried lk_related lk_is_related.
+  lk_find_by_id lk_load_by_id lk_load_entity lk_is_entity_present lk_bucket lk_valid_id lk_queried lk_related lk_is_related
+  get_set unsorted_scan_over sorting_scan_over cands_set_all cands_set_any.
